@@ -200,6 +200,27 @@ func c11HoleSeqDriver(maxSeq int) func(c *explore.Chooser) *c11Case {
 	}
 }
 
+// driver 6: literals that span source lines - what stands at the START of a continuation line is text like any
+// other: blanks, tabs, mixtures (an indentation to a line-based pre-pass, after seed C11i), a % or a hole.
+func c11MultiLineDriver() func(c *explore.Chooser) *c11Case {
+	ws := []string{"", " ", "  ", "\t", "\t\t", " \t", "\t ", "    \t  "}
+	ws2 := []string{"", "\t", "  ", "\t  "}
+	return func(c *explore.Chooser) *c11Case {
+		form := c.Choose(4)
+		pre := []string{"", "a"}[c.Choose(2)]
+		nl := []string{"\n", "\r\n"}[c.Choose(2)]
+		mids := []string{"x", "", "%"}
+		if form >= 2 {
+			mids = append(mids, "{x}")
+		}
+		body := pre + nl + ws[c.Choose(len(ws))] + mids[c.Choose(len(mids))]
+		if c.Bool() {
+			body += nl + ws2[c.Choose(len(ws2))] + "z"
+		}
+		return &c11Case{form: form, body: body, kind: "multi-line", ctx: []int{0, 1}[c.Choose(2)]}
+	}
+}
+
 // driver 4: the display form of a hole value by type
 func c11HoleTypeDriver() func(c *explore.Chooser) *c11Case {
 	vars := []string{"x", "s", "b", "n", "g", "z", "e", "l", "t", "fa", "fb", "fd"}
@@ -268,6 +289,7 @@ func checkC11(c *core.Ctx) {
 	collect(c11CharDriver())
 	collect(c11HoleDriver())
 	collect(c11HoleTypeDriver())
+	collect(c11MultiLineDriver())
 	if c.Thorough() {
 		collect(c11HoleSeqDriver(6))
 	} else {
